@@ -96,6 +96,10 @@ func init() {
 		// ghost: number of datagrams handed to the transport
 		g := e.get(e.cur, "ghost:sends", Arr(RefS, BV64))
 		e.set(e.cur, "ghost:sends", c.Store(g, c.NilRef(), c.BVBin("bvadd", c.Select(g, c.NilRef()), c.BVLit(1, 64))))
+		// ghost: did the last exchange fail (no reply, write error, ...)? Index (sub nilref 1) of the same class.
+		failed := c.Ite(c.Eq(r.Fields[1].Tag, c.Int(0)), c.BVLit(0, 64), c.BVLit(1, 64))
+		g = e.get(e.cur, "ghost:sends", Arr(RefS, BV64))
+		e.set(e.cur, "ghost:sends", c.Store(g, c.Sub(c.NilRef(), 1), failed))
 		return r
 	}
 	for _, n := range []string{"Inc", "Dec"} {
@@ -238,7 +242,38 @@ func init() {
 		if op.Fn != nil {
 			e.restoreBindings(op, pre)
 		}
-		return e.freshVal("retryerr", resT)
+		rerr := e.freshVal("retryerr", resT)
+		if op.Fn != nil {
+			if ct := e.w.Contracts[op.Fn]; ct != nil {
+				// Retry returns nil only if the last call of the operation did: what that call
+				// guarantees for a nil result (clauses without old()) holds afterwards
+				nf := e.newFrame(op.Fn)
+				for i, fv := range op.Fn.FreeVars {
+					if i < len(op.Bind) {
+						nf.vals[fv] = op.Bind[i]
+					}
+				}
+				for _, cl := range ct.Ensures {
+					if strings.Contains(cl.Text, "old(") || strings.HasPrefix(cl.Tag, "keep.") || strings.HasPrefix(cl.Tag, "inv.") {
+						continue
+					}
+					env := e.contractEnv(nf, ct, nil, e.cur, e.cur)
+					env.result = e.zero(op.Fn.Signature.Results().At(0).Type())
+					t, ok := func() (t *Term, ok bool) {
+						defer func() {
+							if r := recover(); r != nil {
+								ok = false
+							}
+						}()
+						return env.trClause(cl), true
+					}()
+					if ok {
+						e.assume(e.c.Implies(e.c.Eq(rerr.Tag, e.c.Int(0)), t))
+					}
+				}
+			}
+		}
+		return rerr
 	}
 	// bytes.Buffer: only the frame is modelled - Write changes nothing but the buffer object, Bytes
 	// returns some byte slice (its relation to what was written is not modelled)
@@ -286,6 +321,197 @@ func init() {
 		}
 		return r
 	}
+	// A Session supplied by the caller: anything reachable from the arguments may change, except
+	// that the request half of the command is only read (every request serialiser of the module
+	// leaves its receiver unchanged; user-written commands are assumed to do the same).
+	nativeModels["(bmc.Session).SendCommand"] = func(e *Encoder, fr *frame, args []*SVal, ci ssa.CallInstruction, resT types.Type) *SVal {
+		e.unmodelled["(bmc.Session).SendCommand"] = true
+		e.trusted["Session.SendCommand(ctx, c) may change anything reachable from its arguments except the request fields (c.Req) of the command, which are only read"] = true
+		pre := e.cur
+		e.havocAll()
+		e.restoreFrame(fr, pre, args)
+		if len(args) >= 3 && args[2] != nil && args[2].K == KIface && args[2].Dyn != nil {
+			if pt, ok := args[2].Dyn.Underlying().(*types.Pointer); ok {
+				if st, ok := pt.Elem().Underlying().(*types.Struct); ok {
+					for i := 0; i < st.NumFields(); i++ {
+						if st.Field(i).Name() != "Req" {
+							continue
+						}
+						a := e.fieldAddr(args[2].T, pt.Elem(), i)
+						e.store(e.cur, a, e.load(pre, a))
+					}
+				}
+			}
+		}
+		return e.freshResult("ret.Session.SendCommand", resT)
+	}
+	// helper commands of a caller-supplied Session: as the module's own sessions do, they return a
+	// response object of their own (non-nil, not touched by later calls) whenever they return no error
+	for _, m := range []string{"ReserveSDRRepository", "GetSDRRepositoryInfo"} {
+		m := m
+		nativeModels["(bmc.Session)."+m] = func(e *Encoder, fr *frame, args []*SVal, ci ssa.CallInstruction, resT types.Type) *SVal {
+			c := e.c
+			e.unmodelled["(bmc.Session)."+m] = true
+			e.trusted["Session."+m+"(ctx) returns a response object of its own (non-nil, not modified by later calls) whenever it returns no error, as the module's own sessions do"] = true
+			pre := e.cur
+			e.havocAll()
+			e.restoreFrame(fr, pre, args)
+			r := e.freshResult("ret.Session."+m, resT)
+			if r.K == KTuple && len(r.Fields) == 2 && r.Fields[0].K == KPtr {
+				obj := e.newAlloc()
+				if pt, ok := r.Fields[0].Typ.Underlying().(*types.Pointer); ok && len(e.loopRefSyms) == 0 {
+					e.tracked = append(e.tracked, trackedObj{obj, pt.Elem()})
+				}
+				e.assume(c.Implies(c.Eq(r.Fields[1].Tag, c.Int(0)), c.Eq(r.Fields[0].T, obj)))
+			}
+			return r
+		}
+	}
+	// gopacket lazy packets, as walkSDRs uses them: NewPacket(data, first, opts) remembers data and the
+	// first layer type; Packet.Layer(t), for t the first layer type, is nil or the value the decoder
+	// registered for t produced from those bytes - the module registers LayerType<Name> with a
+	// decoder that fills a new <Name> (pkg/ipmi/layer_types.go), whose own contract (C07) is applied.
+	nativeModels["github.com/google/gopacket.NewPacket"] = func(e *Encoder, fr *frame, args []*SVal, ci ssa.CallInstruction, resT types.Type) *SVal {
+		c := e.c
+		e.trusted["gopacket.NewPacket / Packet.Layer(t): for the first layer type t of a packet, Layer(t) is nil or a new value of the struct registered for t, filled by that struct's DecodeFromBytes from the packet's bytes without error"] = true
+		r := e.freshVal("packet", resT)
+		r.T = e.newAlloc()
+		if e.packets == nil {
+			e.packets = map[*Term][2]*SVal{}
+		}
+		e.packets[r.T] = [2]*SVal{args[0], args[1]}
+		_ = c
+		return r
+	}
+	nativeModels["(gopacket.Packet).Layer"] = func(e *Encoder, fr *frame, args []*SVal, ci ssa.CallInstruction, resT types.Type) *SVal {
+		c := e.c
+		res := e.freshVal("layer", resT)
+		info, ok := e.packets[args[0].T]
+		if !ok {
+			return res
+		}
+		data, first := info[0], info[1]
+		want := args[1]
+		ip := e.w.SSAPkgs[modPath+"/pkg/ipmi"]
+		if ip == nil {
+			return res
+		}
+		nonNil := c.Not(c.Eq(res.Tag, c.Int(0)))
+		for name, m := range ip.Members {
+			g, isG := m.(*ssa.Global)
+			if !isG || !strings.HasPrefix(name, "LayerType") {
+				continue
+			}
+			tn, _ := ip.Pkg.Scope().Lookup(strings.TrimPrefix(name, "LayerType")).(*types.TypeName)
+			if tn == nil {
+				continue
+			}
+			T := types.NewPointer(tn.Type())
+			var dec *ssa.Function
+			if ms := e.w.Prog.MethodSets.MethodSet(T); ms.Lookup(ip.Pkg, "DecodeFromBytes") == nil {
+				continue
+			}
+			if dec = e.w.Prog.LookupMethod(T, ip.Pkg, "DecodeFromBytes"); dec == nil {
+				continue
+			}
+			ct := e.w.Contracts[dec]
+			if ct == nil || len(ct.Ensures) == 0 {
+				continue
+			}
+			lt := e.load(e.cur, e.globalAddr(g))
+			firstT := first.T
+			if first.K == KIface {
+				if first.Inner == nil || first.Inner.T == nil || first.Inner.T.S != lt.T.S {
+					continue
+				}
+				firstT = first.Inner.T
+			}
+			if want.T == nil || want.T.S != lt.T.S {
+				continue
+			}
+			is := c.And(c.Eq(want.T, lt.T), c.Eq(firstT, lt.T))
+			if is.IsFalse() {
+				continue
+			}
+			if !is.IsTrue() {
+				continue // only syntactically known layer types are modelled
+			}
+			// the layer, if present, is a new object of that type holding the decoder's result
+			obj := e.newAlloc()
+			if len(e.loopRefSyms) == 0 {
+				e.tracked = append(e.tracked, trackedObj{obj, tn.Type()})
+			}
+			ptr := &SVal{K: KPtr, Typ: T, T: obj}
+			saved := e.guard
+			e.guard = c.And(saved, nonNil)
+			df := e.freshVal("df", dec.Params[2].Type())
+			e.assumeFact(c.Not(c.Eq(df.Tag, c.Int(0))))
+			rv := e.applyContract(fr, ct, []*SVal{ptr, data, df}, ci, dec.Signature.Results())
+			e.guard = saved
+			if rv != nil && rv.K == KIface {
+				e.assume(c.Implies(nonNil, c.Eq(rv.Tag, c.Int(0)))) // decoded without error
+			}
+			e.assume(c.Implies(nonNil, c.And(c.Eq(res.Tag, c.Int(int64(e.w.typeTag(T)))), c.Eq(res.T, obj))))
+		}
+		return res
+	}
+	// ---- deadlines (C13): contexts and sockets ----
+	nativeModels["(context.Context).Deadline"] = func(e *Encoder, fr *frame, args []*SVal, ci ssa.CallInstruction, resT types.Type) *SVal {
+		c := e.c
+		e.trusted["context.Context.Deadline() reports the context's deadline (an uninterpreted function of the context)"] = true
+		tt := resT.(*types.Tuple)
+		t := e.freshVal("deadline", tt.At(0).Type())
+		sec, ns := e.timeParts(t)
+		e.assumeFact(c.And(c.Eq(sec, c.App("ctxDeadlineSec", BV64, args[0].T)), c.Eq(ns, c.App("ctxDeadlineNsec", BV64, args[0].T))))
+		ok := &SVal{K: KScalar, Typ: types.Typ[types.Bool], T: c.App("ctxHasDeadline", BoolS, args[0].T)}
+		return &SVal{K: KTuple, Typ: resT, Fields: []*SVal{t, ok}}
+	}
+	for _, rw := range []string{"Write", "Read"} {
+		rw := rw
+		nativeModels["(*net.conn).Set"+rw+"Deadline"] = func(e *Encoder, fr *frame, args []*SVal, ci ssa.CallInstruction, resT types.Type) *SVal {
+			c := e.c
+			e.trusted["net.UDPConn.SetWriteDeadline / SetReadDeadline record the deadline of the socket (or fail); Write / ReadFromUDP touch only the socket and the buffer given"] = true
+			sec, ns := e.timeParts(args[1])
+			errv := e.freshVal("dlerr", resT)
+			okc := c.Eq(errv.Tag, c.Int(0))
+			for _, part := range []struct {
+				n string
+				v *Term
+			}{{"sec", sec}, {"nsec", ns}} {
+				cls := "ghost:deadline" + rw + "#" + part.n
+				arr := e.get(e.cur, cls, Arr(RefS, BV64))
+				e.set(e.cur, cls, c.Store(arr, args[0].T, c.Ite(okc, part.v, c.Select(arr, args[0].T))))
+			}
+			return errv
+		}
+	}
+	nativeModels["(*net.conn).Write"] = func(e *Encoder, fr *frame, args []*SVal, ci ssa.CallInstruction, resT types.Type) *SVal {
+		tt := resT.(*types.Tuple)
+		n := e.freshVal("wrote", tt.At(0).Type())
+		return &SVal{K: KTuple, Typ: resT, Fields: []*SVal{n, e.freshVal("werr", tt.At(1).Type())}}
+	}
+	nativeModels["(*net.UDPConn).ReadFromUDP"] = func(e *Encoder, fr *frame, args []*SVal, ci ssa.CallInstruction, resT types.Type) *SVal {
+		c := e.c
+		tt := resT.(*types.Tuple)
+		b := args[1]
+		n := e.freshVal("read", tt.At(0).Type())
+		errv := e.freshVal("rerr", tt.At(2).Type())
+		// on success 0 <= n <= len(b); the buffer's bytes are whatever arrived
+		e.assumeFact(c.Implies(c.Eq(errv.Tag, c.Int(0)), c.And(c.BVCmp("bvsle", c.BVLit(0, 64), n.T), c.BVCmp("bvsle", n.T, b.Len))))
+		mem := e.get(e.cur, "mem:bv8", Arr(RefS, Arr(BV64, BV8)))
+		e.set(e.cur, "mem:bv8", c.Store(mem, b.Base, c.Fresh("datagram", Arr(BV64, BV8))))
+		return &SVal{K: KTuple, Typ: resT, Fields: []*SVal{n, e.freshVal("raddr", tt.At(1).Type()), errv}}
+	}
+	for _, n := range []string{"time.Now", "time.Since", "(time.Time).Sub"} {
+		n := n
+		nativeModels[n] = func(e *Encoder, fr *frame, args []*SVal, ci ssa.CallInstruction, resT types.Type) *SVal {
+			return e.freshResult("clock", resT)
+		}
+	}
+	nativeModels["(prometheus.Observer).Observe"] = func(e *Encoder, fr *frame, args []*SVal, ci ssa.CallInstruction, resT types.Type) *SVal {
+		return &SVal{K: KTuple, Typ: resT} // histograms are outside the metric ghost (C18 counts counters and gauges)
+	}
+	nativeModels["(prometheus.Histogram).Observe"] = nativeModels["(prometheus.Observer).Observe"]
 	nativeModels["(context.Context).Err"] = func(e *Encoder, fr *frame, args []*SVal, ci ssa.CallInstruction, resT types.Type) *SVal {
 		return e.freshVal("ctxerr", resT)
 	}
